@@ -43,7 +43,11 @@ type fakeRT struct {
 	jitter  bool                     // pings take 0..300 µs (storm)
 	hold    map[string]chan struct{} // calls to these addresses wait inside the Transport until released
 	late    []string
+	slow    map[string]bool // a black-holed address: its probe hangs for slowProbe before it fails
 }
+
+const slowProbe = 900 * time.Millisecond
+const stallLimit = 400 * time.Millisecond
 
 func (f *fakeRT) result(addr string) error {
 	f.mu.Lock()
@@ -99,7 +103,11 @@ func (f *fakeRT) Ping(addr string) error {
 	f.mu.Lock()
 	f.pings[addr]++
 	j := f.jitter
+	sl := f.slow[addr]
 	f.mu.Unlock()
+	if sl {
+		time.Sleep(slowProbe)
+	}
 	if j {
 		h := uint32(2166136261)
 		for i := 0; i < len(addr); i++ {
@@ -273,6 +281,8 @@ type routerResult struct {
 	stormBad   []string
 	stormCalls int
 	timing     bool
+	timingWhy  string
+	stalls     []string // C18: calls (or Close) that hung although a live target existed
 	actions    []string
 	obs        []string
 	env        *routerEnv
@@ -369,6 +379,7 @@ func runRouterScenario(sc routerScenario) *routerResult {
 	res := &routerResult{env: e}
 	time.Sleep(20 * time.Millisecond) // the detector's first pass (no targets yet)
 	next := 1000
+	closed := false
 	for _, a := range sc.Actions {
 		f := strings.Fields(a)
 		rec := a
@@ -402,6 +413,17 @@ func runRouterScenario(sc routerScenario) *routerResult {
 			e.rt.mu.Lock()
 			e.rt.up[f[1]] = f[2] == "1"
 			e.rt.mu.Unlock()
+		case "slowprobe":
+			// a black-holed target: down, and every probe of it hangs for slowProbe first (for the
+			// model it is simply down)
+			e.rt.mu.Lock()
+			e.rt.up[f[1]] = false
+			if e.rt.slow == nil {
+				e.rt.slow = map[string]bool{}
+			}
+			e.rt.slow[f[1]] = true
+			e.rt.mu.Unlock()
+			rec = "health " + f[1] + " 0"
 		case "wait":
 			time.Sleep(routerWait)
 			// the list order after a rebuild is the map's iteration order: it is an input of the model
@@ -410,8 +432,8 @@ func runRouterScenario(sc routerScenario) *routerResult {
 		case "route", "gos", "rts", "pings", "ctxs", "streams":
 			form := map[string]string{"route": "call", "gos": "go", "rts": "rt", "pings": "ping", "ctxs": "ctx", "streams": "stream"}[f[0]]
 			n := atoi(f[1])
-			if l0, _, _, _, _, _, _ := e.c.VerifClientSnapshot(); len(l0) == 0 && e.dirAddr == "" || e.dirAddr == "-" && len(l0) == 0 {
-				res.timing = true // nothing is live: the calls wait for the background detector
+			if l0, _, _, _, _, _, _ := e.c.VerifClientSnapshot(); !closed && (len(l0) == 0 && e.dirAddr == "" || e.dirAddr == "-" && len(l0) == 0) {
+				res.timing, res.timingWhy = true, "no-live-target-at-call"
 			}
 			e.rt.mu.Lock()
 			before := len(e.rt.log)
@@ -427,10 +449,20 @@ func runRouterScenario(sc routerScenario) *routerResult {
 					e.rt.mu.Unlock()
 					res.leastPicks = append(res.leastPicks, leastPick{at: at, list: l0, lat: lat})
 				}
+				liveAtStart, _, _, _, _, _, _ := e.c.VerifClientSnapshot()
+				t0 = time.Now()
 				e.start(next, form)
 				e.waitCalls(2 * time.Second) // sequential calls
 				if time.Since(t0) > 25*time.Millisecond {
-					res.timing = true // a call had to wait for the detector: outcome depends on its phase
+					res.timing, res.timingWhy = true, "call-took-over-25ms"
+				}
+				if d := time.Since(t0); d > stallLimit && len(liveAtStart) > 0 && !closed {
+					e.rt.mu.Lock()
+					held := len(e.rt.hold) > 0
+					e.rt.mu.Unlock()
+					if !held {
+						res.stalls = append(res.stalls, fmt.Sprintf("a %s call started with live targets %v took %v", form, liveAtStart, d.Round(time.Millisecond)))
+					}
 				}
 			}
 			if sc.Policy == "rand" {
@@ -470,7 +502,12 @@ func runRouterScenario(sc routerScenario) *routerResult {
 		case "expire":
 			time.Sleep(routerDialTimeout + 150*time.Millisecond)
 		case "close":
+			tc := time.Now()
 			e.c.Close()
+			if d := time.Since(tc); d > stallLimit {
+				res.stalls = append(res.stalls, fmt.Sprintf("Close took %v", d.Round(time.Millisecond)))
+			}
+			closed = true
 		case "fallback":
 			e.c.Fallback(time.Duration(atoi(f[1])) * time.Millisecond)
 		case "sleep":
@@ -479,7 +516,7 @@ func runRouterScenario(sc routerScenario) *routerResult {
 			// storm n: n generations of pairwise disjoint target lists are installed one after the
 			// other while four goroutines keep calling; every call records the generation whose
 			// Update had returned when it started, and the address it was sent to
-			res.timing = true
+			res.timing, res.timingWhy = true, "storm"
 			res.stormBad, res.stormCalls = e.storm(atoi(f[1]))
 		case "setlat":
 			e.c.VerifSetLatency(f[1], int64(atoi(f[2])))
@@ -503,8 +540,16 @@ func runRouterScenario(sc routerScenario) *routerResult {
 			if f[0] == "update" {
 				want = ""
 			}
-			if strings.Join(listAfter, ",") != want {
-				res.timing = true
+			// (a pass rebuilds the list only when the SET of live addresses changed: a mere
+			// permutation of the same set is not the detector's doing and stays in the comparison)
+			sa, sb := append([]string(nil), listAfter...), strings.Split(want, ",")
+			if want == "" {
+				sb = nil
+			}
+			sort.Strings(sa)
+			sort.Strings(sb)
+			if strings.Join(sa, ",") != strings.Join(sb, ",") {
+				res.timing, res.timingWhy = true, "pass-inside-"+f[0]
 			}
 		}
 		res.actions = append(res.actions, rec)
@@ -548,6 +593,10 @@ func parseList(obs, key string) []string {
 func checkRouter(sc routerScenario, r *routerResult) []connVerdict {
 	var out []connVerdict
 	add := func(prop, mon, key, what string) { out = append(out, connVerdict{prop, mon, key, what}) }
+	for _, st := range r.stalls {
+		add("C18", "nobody-stalls-behind-a-probe", "C18/stalled-with-a-live-target", st+" (a probe of a black-holed target must not hold up routing, time-outs or Close)")
+	}
+	formOf := map[string]string{}
 	cur := map[string]bool{}
 	director := "-"
 	prevSent := 0
@@ -639,6 +688,52 @@ func checkRouter(sc routerScenario, r *routerResult) []connVerdict {
 				}
 			}
 		}
+		// which form each call has: the ids that appear with an action are that action's calls
+		{
+			form := map[string]string{"route": "call", "gos": "go", "rts": "rt", "pings": "ping", "ctxs": "ctx", "streams": "stream", "hgo": "go"}[f[0]]
+			if f[0] == "park" && len(f) > 2 {
+				form = f[2]
+			}
+			if form != "" {
+				for k := range obsCalls(obs) {
+					if _, seen := formOf[k]; !seen {
+						formOf[k] = form
+					}
+				}
+			}
+		}
+		// C18: Close fails every parked caller with ErrShutdown
+		if f[0] == "close" && i > 0 {
+			prevCalls := obsCalls(r.obs[i-1])
+			nowCalls := obsCalls(obs)
+			pend := 0
+			for _, v := range prevCalls {
+				if v == "-" {
+					pend++
+				}
+			}
+			if w := obsInt(r.obs[i-1], "waiters"); w > 0 && w == pend {
+				for k, v := range prevCalls {
+					// Call and CallWithContext report ErrShutdown; the other forms any non-nil error
+					blocking := formOf[k] == "call" || formOf[k] == "ctx"
+					if v == "-" && (blocking && nowCalls[k] != "shutdown" || !blocking && nowCalls[k] == "nil") {
+						add("C18", "close-fails-parked-callers", "C18/parked-caller-not-failed-by-close", fmt.Sprintf("call %s (%s) was parked waiting for a live target when Close ran and ended with %q", k, formOf[k], nowCalls[k]))
+						break
+					}
+				}
+			}
+		}
+		// C17: a call never reorders the live list (the rotation the cursor walks): only Update and the
+		// detector's rebuild after a change of the live set do
+		if i > 0 && f[0] != "update" && f[0] != "wait" && f[0] != "storm" {
+			prev := parseList(r.obs[i-1], "list")
+			a1, a2 := append([]string(nil), prev...), append([]string(nil), list...)
+			sort.Strings(a1)
+			sort.Strings(a2)
+			if len(a1) > 1 && strings.Join(a1, ",") == strings.Join(a2, ",") && strings.Join(prev, ",") != strings.Join(list, ",") {
+				add("C17", "calls-leave-rotation-alone", "C17/live-list-reordered-by-calls/"+sc.Policy, fmt.Sprintf("action %d (%s) left the live set %v as it was but reordered the list the cursor walks from %v to %v", i, a, a2, prev, list))
+			}
+		}
 		// C16: the configured targets are exactly the distinct non-empty addresses last given to Update
 		if f[0] == "update" {
 			if nt := obsInt(obs, "nt"); nt >= 0 && nt != len(cur) {
@@ -714,6 +809,23 @@ func checkRouter(sc routerScenario, r *routerResult) []connVerdict {
 			}
 		}
 		prevSent = len(sent)
+	}
+	return out
+}
+
+// obsCalls: call id -> outcome ("-" = not returned yet) of an observation.
+func obsCalls(obs string) map[string]string {
+	out := map[string]string{}
+	i := strings.Index(obs, "calls=[")
+	if i < 0 {
+		return out
+	}
+	j := strings.LastIndex(obs, "]")
+	for _, x := range strings.Fields(obs[i+7 : j]) {
+		kv := strings.SplitN(x, ":", 2)
+		if len(kv) == 2 {
+			out[kv[0]] = kv[1]
+		}
 	}
 	return out
 }
@@ -836,6 +948,7 @@ func routerCorpus() []routerScenario {
 	mk("failover-every-form", "rr", "health A 1", "health B 1", "update A,B", "wait", "health B 0", "rts 2", "wait", "health B 1", "wait", "wait", "wait", "health A 0", "pings 2", "wait", "health A 1", "wait", "wait", "wait", "health B 0", "ctxs 2", "wait", "route 2")
 	mk("shrink-with-cursor", "rr", "health A 1", "health B 1", "health C 1", "update A,B,C", "wait", "route 2", "health C 0", "wait", "wait", "route 3", "health C 1", "wait", "wait", "wait", "route 1", "health A 0", "wait", "wait", "route 4")
 	mk("shrink-with-cursor-at-the-end", "rr", "health A 1", "health B 1", "health C 1", "health D 1", "update A,B,C,D", "wait", "route 3", "health D 0", "wait", "wait", "route 2", "health B 0", "wait", "wait", "gos 3")
+	mk("slow-probe-does-not-freeze-routing", "rr", "health A 1", "slowprobe B", "update A,B", "wait", "wait", "route 6", "gos 3", "wait", "route 4", "close")
 	mk("waiters-released", "rr", "health A 0", "update A", "wait", "park 3 call", "park 2 go", "health A 1", "wait", "settle", "route 1")
 	mk("waiters-timeout", "rr", "health A 0", "update A", "wait", "park 2 call", "park 1 ctx", "park 1 go", "park 1 rt", "park 1 ping", "expire", "settle")
 	mk("waiters-close", "rr", "health A 0", "update A", "wait", "park 2 call", "park 1 ctx", "park 1 go", "close", "settle", "route 1", "gos 1", "close")
@@ -949,7 +1062,7 @@ func ewmaCases(r *prng.R, n int, out *scenarioOut) {
 func runOneRouter(i int, sc routerScenario, seed uint64) *scenarioOut {
 	res := runRouterScenario(sc)
 	if os.Getenv("CORR_DEBUG") != "" {
-		fmt.Fprintf(os.Stderr, "scenario %d %s %s\n", i, sc.Name, sc.header())
+		fmt.Fprintf(os.Stderr, "scenario %d %s %s timing=%v %s\n", i, sc.Name, sc.header(), res.timing, res.timingWhy)
 		for j, a := range res.actions {
 			fmt.Fprintf(os.Stderr, "  %s\n      %s\n", a, res.obs[j])
 		}
@@ -966,6 +1079,11 @@ func runOneRouter(i int, sc routerScenario, seed uint64) *scenarioOut {
 		out.Streams = map[string][2][]string{"r": {inl, iml}}
 	} else {
 		out.Counters["timing-dependent-scenarios"]++
+		why := res.timingWhy
+		if why == "" {
+			why = "storm-or-other"
+		}
+		out.Counters["timing."+why]++
 	}
 	out.Key = sc.Policy + " " + strings.Join(sc.Actions, ";")
 	out.Counters["actions"] = len(res.actions)
